@@ -1181,6 +1181,15 @@ def history_items(prop, tier, seed, oracles, opts=None, accept=None, relabel=Fal
     items = []
     maxm = 2 if tier == 'quick' else 3
     ctxs = ['pair', 'target-in-ring', 'owner-target-ring', 'self', 'self+loopback']
+    if prop not in ('C01', 'C03'):
+        # upstream's no-effect same-handle adoption recorded m times and taken back u times
+        for m in range(1, maxm + 1):
+            for u in range(0, m + 2):
+                ops = [{'op': 'new', 'obj': 0, 'as': H(0)}, {'op': 'extras', 'h': H(0), 'n': 'e0'}]
+                ops += [{'op': 'adopt', 'a': H(0), 'b': H(0)}] * m + [{'op': 'unadopt', 'a': H(0), 'b': H(0)}] * u
+                ops += [{'op': 'clone', 'h': H(0), 'as': 'c0'}, {'op': 'drop', 'h': 'c0'}, {'op': 'drop', 'h': H(0)}]
+                items.append(dict(prop=prop, name='hist loopback-only m=%d u=%d' % (m, u), script={'ops': [dict(o) for o in ops]}, sym=True, oracles=set(oracles),
+                                  opts=dict(opts or {}), layouts=[None]))
     for ctx in ctxs:
         n = {'pair': 2, 'target-in-ring': 3, 'owner-target-ring': 2, 'self': 1, 'self+loopback': 1}[ctx]
         tgt = 0 if ctx.startswith('self') else 1
